@@ -266,3 +266,58 @@ Proof.
   apply (C01_decoder_code_decodes_encodings llrp_table llrp_dec llrp_dec_schema_ok llrp_dec_matches true 61 _ _ bs 3);
     [apply C01_example_wf|vm_compute; apply le_n|exact E].
 Qed.
+
+(* ================= readings over a HISTORY of replies; what the receiver of a decode must be =================
+   The JSON clause speaks of "readings": the device service decodes the Reader's reply / report and serialises the
+   decoded value to JSON later.  [readings] (Codec/Readings.v) is that path with a fresh receiver per reply.  For
+   EVERY history: the i-th reading is the JSON form of the i-th message sent and reads back as that message,
+   whatever was sent before or after it.  Tied at driver level on every run (checks/c01_driver.py: a real
+   Driver/LLRPDevice/Client against a scripted Reader, every reading's JSON == to_json of the value sent THAT time,
+   all earlier readings compared again after later reads and reports). *)
+From Coq Require Import Lia.
+From LLRP Require Import Codec.Readings.
+
+Theorem C01_readings_are_of_their_replies : forall t jt fuel vs h,
+  wf_schema t = true -> jt_ok t jt = true ->
+  Forall2 (sent t jt fuel) vs h ->
+  Forall2 (is_reading_of jt) vs (readings t jt fuel h).
+Proof. exact readings_are_of_their_replies. Qed.
+Print Assumptions C01_readings_are_of_their_replies.
+
+(* The generated UnmarshalBinary does not reset its receiver ([merge_into]: repeated sub-parameters are appended,
+   absent optionals and empty strings/arrays keep the old content; tied to Go on every run, oracle `merge` vs worker
+   `dinto`).  Decoding "yields a value equal to the original" is therefore a statement about a FRESH receiver:
+   into the zero value, merge_into is the identity on well-formed values (every table, any depth) ... *)
+Theorem C01_decode_into_fresh_receiver : forall t, wf_schema t = true ->
+  forall k fuel msg tid fs ss,
+    wfv t (VStruct msg tid fs ss) -> (depth (VStruct msg tid fs ss) <= S k)%nat ->
+    merge_into t fuel (zero_of t k msg tid) (VStruct msg tid fs ss) = VStruct msg tid fs ss.
+Proof. exact merge_into_zero. Qed.
+Print Assumptions C01_decode_into_fresh_receiver.
+
+(* ... and with a receiver that is kept between reads the clause is false of the faithful model: the same
+   GetReaderConfigResponse (one AntennaProperties) read twice — fresh receivers give its JSON form twice, one kept
+   receiver gives it the first time and something else (two AntennaProperties) the second time.  "The receiver of
+   every decode is allocated for it" is an obligation on the callers: checked structurally (decode-site scan) and
+   dynamically (driver-level readings) on every run. *)
+Theorem C01_reused_receiver_refuted :
+  exists v bs, wfv llrp_table v /\ text_ok llrp_jtable v = true /\ encode llrp_table v = Some bs /\
+    readings llrp_table llrp_jtable 2 [(12, bs); (12, bs)] = [to_json llrp_jtable v; to_json llrp_jtable v] /\
+    exists j1 j2, readings_reused llrp_table llrp_jtable 2 12 (zero_of llrp_table 2 true 12) [bs; bs] = [Some j1; Some j2] /\
+                  to_json llrp_jtable v = Some j1 /\ j2 <> j1.
+Proof. exact reused_receiver_refuted. Qed.
+Print Assumptions C01_reused_receiver_refuted.
+
+(* non-vacuity: the hypotheses of C01_readings_are_of_their_replies hold for a history of two different messages *)
+Example C01_readings_example :
+  exists h, Forall2 (sent llrp_table llrp_jtable 3) [config_reply; example_report] h /\ length h = 2%nat.
+Proof.
+  destruct (encode llrp_table config_reply) as [b1|] eqn:E1; [|vm_compute in E1; discriminate].
+  destruct (encode llrp_table example_report) as [b2|] eqn:E2; [|vm_compute in E2; discriminate].
+  exists [(12, b1); (61, b2)]. split; [|reflexivity].
+  constructor; [|constructor; [|constructor]].
+  - eexists; eexists. split; [reflexivity|]. split; [exact (proj1 config_reply_wf)|]. split; [exact (proj1 (proj2 config_reply_wf))|].
+    split; [rewrite (proj2 (proj2 config_reply_wf)); lia|exact E1].
+  - eexists; eexists. split; [reflexivity|]. split; [exact (proj1 C01_example_wf)|]. split; [exact (proj1 C01_json_example)|].
+    split; [rewrite (proj2 C01_example_wf); lia|exact E2].
+Qed.
